@@ -1,5 +1,6 @@
 import OmbottModel.Model.RouteUrl
 import OmbottModel.Lemmas.RouteUrlDom
+import OmbottModel.Lemmas.RouteUrlTree
 /-!
 C19 — Building a URL from matched parameters leads back to the same match.
 Property theorems only; helper lemmas live in `Lemmas/RouteUrl*.lean`.
@@ -142,6 +143,51 @@ theorem url_rematch_partial (env : FilterEnv) (fenv : FormatEnv) (r : Route)
       matchRule (withInt env) r.syms u = some vs :=
   url_rematch (withInt env) fenv r hd hsel (allStable_plainInt env fenv r.syms hpi hadj) path vs hm
 
+/-! ### the same on the router's tree (a router holding only that rule) -/
+
+/-- `intFilter` never answers with a selector -/
+theorem noSel_withInt (env : FilterEnv) (hs : NoSel env) : NoSel (withInt env) := by
+  intro f s r h
+  unfold withInt at h
+  by_cases hf : isIntFid f = true
+  · rw [if_pos hf] at h
+    exact (intFilter_spec h).2.1
+  · rw [if_neg hf] at h
+    exact hs f s r h
+
+/-- **`url_rematch` observed where the property observes it**: on the tree of a router that
+holds only the rule (`RadiDict.add` of its pattern into an empty tree), if the lookup of `path`
+hits with values `vs`, then `Route.url` on those values returns a URL whose lookup hits the same
+route with the same names and the same values.  Uses C01's `get_eq_spec`/`insert_wf`/
+`insert_denote` (lookup in a well-formed tree = rule-by-rule matcher), hence `NoSel`. -/
+theorem url_rematch_tree (env : FilterEnv) (fenv : FormatEnv) (hs : NoSel env) (r : Route)
+    (hd : urlDomain r = true) (hsel : selFree r = true) (hst : AllStable env fenv r.syms)
+    (id : Nat) (t : Node) (ht : treeAdd Node.root r.syms id r.params = .ok t)
+    (path : Str) (vs : List Val) (hg : (treeGet env t path).core = some (id, r.params, vs)) :
+    ∃ u, routeUrl env fenv r (splitArgs r.params vs).1 (splitArgs r.params vs).2 = .ok u ∧
+      (treeGet env t u).core = some (id, r.params, vs) := by
+  rw [single_rule_get env hs r.syms id r.params t ht path] at hg
+  have hm : matchRule env r.syms path = some vs := by
+    cases h : matchRule env r.syms path with
+    | none => rw [h] at hg; cases hg
+    | some vs' =>
+      rw [h] at hg
+      simp only [Option.map_some, Option.some.injEq, Prod.mk.injEq, true_and] at hg
+      rw [hg]
+  obtain ⟨u, hu, hr⟩ := url_rematch env fenv r hd hsel hst path vs hm
+  exact ⟨u, hu, by rw [single_rule_get env hs r.syms id r.params t ht u, hr]; rfl⟩
+
+/-- the closed form on the tree, for rules of plain and `int` wildcards -/
+theorem url_rematch_tree_partial (env : FilterEnv) (fenv : FormatEnv) (hs : NoSel env) (r : Route)
+    (hd : urlDomain r = true) (hsel : selFree r = true)
+    (hpi : plainIntOnly r.syms = true) (hadj : intAfterTok r.syms = false)
+    (id : Nat) (t : Node) (ht : treeAdd Node.root r.syms id r.params = .ok t)
+    (path : Str) (vs : List Val) (hg : (treeGet (withInt env) t path).core = some (id, r.params, vs)) :
+    ∃ u, routeUrl (withInt env) fenv r (splitArgs r.params vs).1 (splitArgs r.params vs).2 = .ok u ∧
+      (treeGet (withInt env) t u).core = some (id, r.params, vs) :=
+  url_rematch_tree (withInt env) fenv (noSel_withInt env hs) r hd hsel
+    (allStable_plainInt env fenv r.syms hpi hadj) id t ht path vs hg
+
 /-! ### non-vacuity and witnesses -/
 section NonVacuity
 
@@ -191,6 +237,21 @@ front of a plain wildcard -/
 example : HeadRun (withInt noEnv) noFmt [.lit '/', .tok none] ∧ HeadRun (withInt noEnv) noFmt [] ∧
     HeadRun (withInt noEnv) noFmt [.tok none, .lit 'a'] :=
   ⟨trivial, trivial, headKeep_plain _ _, trivial⟩
+
+/-- the hypotheses of `url_rematch_tree(_partial)`: `noEnv` has no selectors, the rule is added
+to the empty tree, and the lookup of `a/007--0/k` hits with the values above -/
+example : NoSel noEnv := by intro f s r h; cases h
+
+example : ∃ t, treeAdd Node.root exRoute.syms 0 exRoute.params = .ok t ∧
+    (treeGet (withInt noEnv) t "a/007--0/k".toList).core =
+      some (0, exRoute.params, [intVal 7, intVal 0, .str "k".toList]) := by
+  have hs : NoSel (withInt noEnv) := noSel_withInt noEnv (by intro f s r h; cases h)
+  obtain ⟨t, ht⟩ : ∃ t, treeAdd Node.root exRoute.syms 0 exRoute.params = .ok t := ⟨_, rfl⟩
+  refine ⟨t, ht, ?_⟩
+  rw [single_rule_get (withInt noEnv) hs exRoute.syms 0 exRoute.params t ht]
+  have : matchRule (withInt noEnv) exRoute.syms "a/007--0/k".toList
+      = some [intVal 7, intVal 0, .str "k".toList] := by decide
+  rw [this]; rfl
 
 end NonVacuity
 
